@@ -161,33 +161,43 @@ def Key.Normal (k : Key) : Prop := k.norm = k
 theorem normal_toInt (k : Key) (hk : k.norm = k) (i : Int) (h : toInt k = some i) : k = .int i := by
   rw [← hk]; exact norm_of_toInt_some k i h
 
-/-- `reset` on a key in normal form refines `Map.reset` -/
-theorem reset_spec (t : Mixed) (inv : Inv hash t) (k : Key) (hk : k.norm = k) (v : Val) :
-    ∃ t', reset hash t k v = some (t', (abs t k).isSome) ∧ Inv hash t' ∧
-      (∀ k', abs t' k' = if k' = k ∧ (abs t k).isSome then some v else abs t k') ∧ SamePositions t t' := by
+/-- `reset` refines `Map.reset` at the normalised key -/
+theorem reset_spec (t : Mixed) (inv : Inv hash t) (k : Key) (v : Val) :
+    ∃ t', reset hash t k v = some (t', (abs t k.norm).isSome) ∧ Inv hash t' ∧
+      (∀ k', abs t' k' = if k' = k.norm ∧ (abs t k.norm).isSome then some v else abs t k') ∧ SamePositions t t' := by
+  -- the hash part is searched with the key `kk` (already normal, outside the array range)
+  have viaHash : ∀ kk : Key, (∀ z, kk = .int z → ¬ inArr t.arr z) →
+      ∃ h', hReset hash t.hash kk v = some (h', (abs t kk).isSome) ∧ Inv hash { t with hash := h' } ∧
+        (∀ k', abs { t with hash := h' } k' = if k' = kk ∧ (abs t kk).isSome then some v else abs t k') ∧
+        SamePositions t { t with hash := h' } := by
+    intro kk hout
+    obtain ⟨h', e, hinv, habs, hkeys, hsome⟩ := hReset_spec hash t.hash _ inv.hash kk v
+    have e0 : abs t kk = hashAbs t.hash kk := by
+      cases kk with
+      | int z => exact abs_int_out t z (hout z rfl)
+      | _ => exact abs_nonint t _ (fun z => by simp)
+    refine ⟨h', by rw [e0]; exact e, ⟨inv.arr, hinv, inv.pow2⟩, ?_, ⟨rfl, hkeys, rfl, hsome⟩⟩
+    rw [e0]
+    by_cases hs : (hashAbs t.hash kk).isSome = true
+    · simp only [hs, and_true] at habs ⊢
+      exact abs_hash_update t h' kk (some v) hout habs
+    · simp only [hs, and_false, if_false, Bool.false_eq_true] at habs ⊢
+      have := abs_hash_update t h' kk (hashAbs t.hash kk) hout
+        (fun k' => by rw [habs]; split <;> simp_all)
+      intro k'
+      rw [this k']
+      split
+      · rename_i e'; subst e'; exact e0.symm
+      · rfl
   unfold reset
   cases hti : toInt k with
   | none =>
     obtain ⟨hn, hni⟩ := norm_of_toInt_none k hti
-    obtain ⟨h', e, hinv, habs, hkeys, hsome⟩ := hReset_spec hash t.hash _ inv.hash k v
-    have e0 := abs_nonint t k hni
-    refine ⟨{ t with hash := h' }, ?_, ⟨inv.arr, hinv, inv.pow2⟩, ?_, ⟨rfl, hkeys, rfl, hsome⟩⟩
-    · simp [e, e0]
-    · rw [e0]
-      by_cases hs : (hashAbs t.hash k).isSome = true
-      · simp only [hs, and_true] at habs ⊢
-        exact abs_hash_update t h' k (some v) (fun z e _ => hni z e) habs
-      · simp only [hs, and_false, if_false, Bool.false_eq_true] at habs ⊢
-        have := abs_hash_update t h' k (hashAbs t.hash k) (fun z e _ => hni z e)
-          (fun k' => by rw [habs]; split <;> simp_all)
-        intro k'
-        rw [this k']
-        split
-        · rename_i e'; subst e'; exact e0.symm
-        · rfl
+    rw [hn]
+    obtain ⟨h', e, i', a', sp⟩ := viaHash k (fun z ez _ => hni z ez)
+    exact ⟨{ t with hash := h' }, by simp [e], i', a', sp⟩
   | some i =>
-    have ek := normal_toInt k hk i hti
-    subst ek
+    rw [norm_of_toInt_some k i hti]
     by_cases h : inArr t.arr i
     · cases ha : t.arr with
       | none => rw [ha] at h; exact absurd h (not_inArr_none i)
@@ -210,53 +220,14 @@ theorem reset_spec (t : Mixed) (inv : Inv hash t) (k : Key) (hk : k.norm = k) (v
           · simp [e, habs0, hv]
           · have := abs_arr_update t a a' ha hlen i h (some v) hat
             intro k'; rw [this k']; simp [habs0, hv]
-    · obtain ⟨h', e, hinv, habs, hkeys, hsome⟩ := hReset_spec hash t.hash _ inv.hash (.int i) v
-      have e0 := abs_int_out t i h
-      refine ⟨{ t with hash := h' }, ?_, ⟨inv.arr, hinv, inv.pow2⟩, ?_, ⟨rfl, hkeys, rfl, hsome⟩⟩
-      · simp [arrResetValue_out t.arr i (some v) h, e, e0]
-      · rw [e0]
-        by_cases hs : (hashAbs t.hash (.int i)).isSome = true
-        · simp only [hs, and_true] at habs ⊢
-          exact abs_hash_update t h' (.int i) (some v) (fun z e => by cases e; exact h) habs
-        · simp only [hs, and_false, if_false, Bool.false_eq_true] at habs ⊢
-          have := abs_hash_update t h' (.int i) (hashAbs t.hash (.int i)) (fun z e => by cases e; exact h)
-            (fun k' => by rw [habs]; split <;> simp_all)
-          intro k'
-          rw [this k']
-          split
-          · rename_i e'; subst e'; exact e0.symm
-          · rfl
+    · obtain ⟨h', e, i', a', sp⟩ := viaHash (.int i) (fun z ez => by cases ez; exact h)
+      exact ⟨{ t with hash := h' }, by simp [arrResetValue_out t.arr i (some v) h, e], i', a', sp⟩
 
-/-- `reset` preserves the invariant and the positions for every key (also the integer-valued floats
-    that it fails to normalise) -/
+/-- `reset` preserves the invariant and the positions -/
 theorem reset_inv (t : Mixed) (inv : Inv hash t) (k : Key) (v : Val) :
     ∃ t' w, reset hash t k v = some (t', w) ∧ Inv hash t' ∧ SamePositions t t' := by
-  unfold reset
-  cases hti : toInt k with
-  | none =>
-    obtain ⟨h', e, hinv, _, hkeys, hsome⟩ := hReset_spec hash t.hash _ inv.hash k v
-    exact ⟨{ t with hash := h' }, (hashAbs t.hash k).isSome, by simp [e], ⟨inv.arr, hinv, inv.pow2⟩, ⟨rfl, hkeys, rfl, hsome⟩⟩
-  | some i =>
-    by_cases h : inArr t.arr i
-    · cases ha : t.arr with
-      | none => rw [ha] at h; exact absurd h (not_inArr_none i)
-      | some a =>
-        rw [ha] at h
-        have ainv := inv.arr a ha
-        cases hv : arrAt (some a) i with
-        | none =>
-          refine ⟨t, false, ?_, inv, ⟨rfl, rfl, rfl, rfl⟩⟩
-          obtain ⟨th, ta⟩ := t
-          simp only at ha; subst ha
-          simp [arrResetValue_absent a i (some v) h hv]
-        | some x =>
-          obtain ⟨a', e, ainv', hlen, hat⟩ := arrResetValue_present a i v h ainv (by simp [hv])
-          have hsz : arrSize (some a') = arrSize t.arr := by simp [arrSize, hlen, ha]
-          exact ⟨{ t with arr := some a' }, true, by simp [e], inv_arr_update hash t inv a a' ha hlen ainv',
-            ⟨hsz, rfl, by simp [ha], rfl⟩⟩
-    · obtain ⟨h', e, hinv, _, hkeys, hsome⟩ := hReset_spec hash t.hash _ inv.hash k v
-      exact ⟨{ t with hash := h' }, (hashAbs t.hash k).isSome, by simp [arrResetValue_out t.arr i (some v) h, e], ⟨inv.arr, hinv, inv.pow2⟩,
-        ⟨rfl, hkeys, rfl, hsome⟩⟩
+  obtain ⟨t', e, i, _, sp⟩ := reset_spec hash t inv k v
+  exact ⟨t', _, e, i, sp⟩
 
 end
 end GoluaVerif.Model.Table
